@@ -579,10 +579,10 @@ def gen_project(rng, logdir, feats):
     return desc, ids
 
 
-def tree_digest(root):
-    """relative path + content of every file below dev/dist/*/*/workspace"""
+def tree_digest(root, kind="dist"):
+    """relative path + content of every file below dev/<kind>/*/*/workspace"""
     out = {}
-    for ws in sorted(glob.glob(os.path.join(root, "dev", "dist", "*", "*", "workspace"))):
+    for ws in sorted(glob.glob(os.path.join(root, "dev", kind, "*", "*", "workspace"))):
         for dp, dn, fn in os.walk(ws):
             dn.sort()
             for f in sorted(fn):
@@ -672,6 +672,7 @@ def run_build(desc, args, durations, failing, timeout, extra_env=None, keep_dir=
         res["script_log"] = [l.split() for l in open(log).read().split("\n") if l.strip()]
         res["root"] = pd
         res["dist"] = tree_digest(pd)
+        res["src"] = tree_digest(pd, "src")
         os.unlink(log)
         return res
     finally:
@@ -1021,6 +1022,95 @@ def run_builds(ctx):
         shutil.rmtree(logdir, ignore_errors=True)
 
 
+# ====================================================================== --checkout-only builds
+def gen_co_project(rng, logdir):
+    """a tool that is needed in both modes of a checkout-only build: by checkout steps (checkoutTools: it has
+    to be built completely) and by the ordinary traversal (buildTools of other packages, where only its
+    sources are checked out)"""
+    def head(i): return STEP_HEAD % {"id": i}
+    ids = ["gen:checkout", "gen:build", "gen:package"]
+    recipes = {"gen": {"checkoutDeterministic": True,
+                       "checkoutScript": head("gen:checkout") + "printf '#!/bin/sh\\necho \"generated for $1\"\\n' > gen\nchmod +x gen\n" + STEP_TAIL,
+                       "buildScript": head("gen:build") + 'cp "$1"/gen .\n' + STEP_TAIL,
+                       "packageScript": head("gen:package") + 'cp "$1"/gen .\n' + STEP_TAIL,
+                       "provideTools": {"gen": "."}}}
+    libs = ["cl%d" % i for i in range(rng.randint(1, 3))]
+    for nm in libs:
+        ids += ["%s:checkout" % nm]
+        recipes[nm] = {"checkoutTools": ["gen"], "checkoutDeterministic": True,
+                       "checkoutScript": head("%s:checkout" % nm) + 'gen %s > source.txt\n' % nm + STEP_TAIL,
+                       "buildScript": 'cp "$1"/source.txt lib.txt\n', "packageScript": 'cp "$1"/lib.txt .\n'}
+    apps = ["ca%d" % i for i in range(rng.randint(1, 2))]
+    for nm in apps:
+        ids += ["%s:checkout" % nm]
+        recipes[nm] = {"depends": rng.sample(libs, rng.randint(1, len(libs))), "buildTools": ["gen"], "checkoutDeterministic": True,
+                       "checkoutScript": head("%s:checkout" % nm) + 'echo %s > source.txt\n' % nm + STEP_TAIL,
+                       "buildScript": 'gen %s > app.txt\n' % nm, "packageScript": 'cp "$1"/app.txt .\n'}
+    first = [{"name": "gen", "use": ["tools"], "forward": True}]
+    rest = apps + [l for l in libs if rng.random() < 0.3]
+    rng.shuffle(rest)
+    recipes["root"] = {"root": True, "depends": first + rest, "buildScript": "true\n", "packageScript": "true\n"}
+    desc = {"recipes": recipes, "classes": {}, "config": {"bobMinimumVersion": "0.25"},
+            "default": {"whitelist": ["C06_LOG", "C06_DUR", "C06_FAIL"]}, "_logdir": logdir}
+    return desc, ids, libs
+
+
+def run_checkout_only(ctx):
+    rng = ctx.rng
+    logdir = core.scratch_dir("c06log")
+    try:
+        jobs = []
+        for i in range(ctx.n(3, 12)):
+            desc, ids, libs = gen_co_project(rng, logdir)
+            runs = [1] + [rng.choice([2, 3, 4, 8]) for _ in range(ctx.n(2, 3))]
+            for j in runs:
+                dur = {x: "0.01" for x in ids}
+                dur["gen:checkout"] = rng.choice(["0.3", "0.15", "0.02"])
+                jobs.append((i, desc, libs, j, dur))
+
+        def one(t):
+            i, desc, libs, j, dur = t
+            try:
+                return run_build(desc, ["dev", "--checkout-only", "-j%d" % j, "root"], dur, set(), 60)
+            except Exception:
+                return {"error": traceback.format_exc()[-1500:]}
+        with ThreadPoolExecutor(max_workers=4) as ex:
+            results = list(ex.map(one, jobs))
+        base = {}
+        for (i, desc, libs, j, dur), r in zip(jobs, results):
+            case = {"kind": "checkout-only", "desc": {k: v for k, v in desc.items() if not k.startswith("_")},
+                    "args": ["dev", "--checkout-only", "-j%d" % j, "root"], "durations": dur, "jobs": j}
+            if "error" in r:
+                ctx.tie_broken("build-runner", {"label": "checkout-only %d" % i, "error": r["error"]}); continue
+            ctx.evaluated(); ctx.count("checkout-only:-j%d" % j)
+            if j == 1:
+                base[i] = r
+                if r["rc"] != 0:
+                    ctx.tie_broken("checkout-only-sequential-build-failed", {"out": r["out"][-800:]})
+                continue
+            b = base.get(i)
+            if b is None or b["rc"] != 0:
+                continue
+            ctx.nontrivial(("checkout-only", i, j, tuple(tuple(l) for l in r["script_log"])))
+            # a checkout step that uses the tool starts only after the tool was packaged
+            log = r["script_log"]
+            done = [k for k, l in enumerate(log) if l[0] == "E" and l[2] == "gen:package" and l[-1] == "0"]
+            early = [l[2] for k, l in enumerate(log) if l[0] == "S" and l[2].split(":")[0] in libs and (not done or k < done[0])]
+            if early:
+                ctx.violation("step-started-before-dependency-finished",
+                              "checkout-only -j%d: %s started before its checkout tool was packaged (script log %r)" % (j, early, log[:8]), case)
+            elif r["hang"] or r["rc"] != 0:
+                ctx.violation("parallel-result-differs-from-sequential",
+                              "checkout-only -j%d ends with rc=%r hang=%r while -j1 succeeds: %s" % (j, r["rc"], r["hang"], r["out"][-300:]), case)
+            elif r["src"] != b["src"]:
+                diff = sorted(set(b["src"].items()) ^ set(r["src"].items()))[:4]
+                ctx.violation("parallel-result-differs-from-sequential", "sources of checkout-only -j%d differ from -j1: %r" % (j, diff), case)
+            else:
+                ctx.validated()
+    finally:
+        shutil.rmtree(logdir, ignore_errors=True)
+
+
 # ====================================================================== corpus: the recorded findings
 
 def corpus_dir():
@@ -1136,7 +1226,8 @@ def run(ctx):
         "'release token; wait; re-acquire' into separate transitions (over-approximation of the cooperative schedule)",
         "Build-Id/fingerprint sub-task trees are abstracted to one token-requiring hop under the workspace lock",
         "--checkout-only (wasSkipped), shared packages, downloads/uploads, RestartBuildException and SIGINT/cancellation "
-        "paths are not modelled; cancellation is outside the statement (aborted builds)",
+        "paths are not modelled; cancellation is outside the statement (aborted builds); --checkout-only builds are exercised on "
+        "the implementation only (parallel vs sequential result, tool packaged before the checkout that uses it)",
         "schedule_independent assumes deterministic scripts (run : workspace -> inputs -> content) and that task keys with "
         "the same workspace have the same prescribed content (coherent: Variant-Id soundness, property C02)",
         "the wrapper observes Bob through JobServer.__enter__, Invoker.__init__/executeStep and LocalBuilder.cook; it changes "
@@ -1152,4 +1243,6 @@ def run(ctx):
     run_semaphore(ctx)
     ctx.note("semaphore %.0fs" % (time.time() - t0)); t0 = time.time()
     run_builds(ctx)
-    ctx.note("builds %.0fs" % (time.time() - t0))
+    ctx.note("builds %.0fs" % (time.time() - t0)); t0 = time.time()
+    run_checkout_only(ctx)
+    ctx.note("checkout-only builds %.0fs" % (time.time() - t0))
